@@ -1044,7 +1044,7 @@ def St.emitCurToData (s : St) : Except PyErr (Bool × St) := do
   let s ← s.emitCur
   ok (s.to .dataState)
 
-/-- lines 1168-1189 (NUL does *not* switch to `commentState`) -/
+/-- commentStartState (NUL switches to `commentState` since fix 6ab2aec) -/
 def commentStartState (s : St) : Except PyErr (Bool × St) := do
   let (data, s) := s.char
   if data = some Ch.dash then
@@ -1052,7 +1052,7 @@ def commentStartState (s : St) : Except PyErr (Bool × St) := do
   else if data = some Ch.nul then
     let s := s.parseError "invalid-codepoint"
     let s ← s.modCur (CurTok.addData [Ch.repl])
-    ok s
+    ok (s.to .commentState)
   else if data = some Ch.gt then
     (s.parseError "incorrect-comment").emitCurToData
   else if data = none then
@@ -1062,7 +1062,7 @@ def commentStartState (s : St) : Except PyErr (Bool × St) := do
     let s ← s.modCur (CurTok.addData [d])
     ok (s.to .commentState)
 
-/-- lines 1191-1212 (NUL does *not* switch to `commentState`) -/
+/-- commentStartDashState (NUL switches to `commentState` since fix 6ab2aec) -/
 def commentStartDashState (s : St) : Except PyErr (Bool × St) := do
   let (data, s) := s.char
   if data = some Ch.dash then
@@ -1070,7 +1070,7 @@ def commentStartDashState (s : St) : Except PyErr (Bool × St) := do
   else if data = some Ch.nul then
     let s := s.parseError "invalid-codepoint"
     let s ← s.modCur (CurTok.addData [Ch.dash, Ch.repl])
-    ok s
+    ok (s.to .commentState)
   else if data = some Ch.gt then
     (s.parseError "incorrect-comment").emitCurToData
   else if data = none then
